@@ -283,3 +283,8 @@ func gen(t *rapid.T) Case {
 func TestSub_combine(t *testing.T) { vk.RunRapid(t, sub) }
 
 func TestReplay(t *testing.T) { vk.Replay(t) }
+
+// native coverage-guided fuzzing over the same generator and oracle (thorough tier)
+var subNativeFuzz = vk.Register(&vk.Sub[Case]{Name: "combine_fuzz", Gen: gen, Check: check})
+
+func FuzzSub_combine_fuzz(f *testing.F) { vk.RunFuzz(f, subNativeFuzz) }
